@@ -91,6 +91,142 @@ def machine(mb: bool):
     return _machines[mb]
 
 
+# ---- cursor protocol ----
+def word_str(w):
+    return "" if w == "-" else "".join(chr(int(x)) for x in w.split("."))
+
+
+def build_toks(ws, i):
+    out = []
+    while i < len(ws):
+        w = ws[i]
+        if w in (")", "|"):
+            return out, i
+        if w in ("P(", "S("):
+            ch, j = build_toks(ws, i + 1)
+            if ws[j] != ")":
+                raise ValueError("unbalanced")
+            from metasequoia_sql.lexical.amt_node import AMTMark
+            if w == "P(":
+                out.append(AMTParenthesis(ch, AMTMark.PARENTHESIS))
+            else:
+                out.append(AMTSlice(ch, AMTMark.ARRAY_INDEX))
+            i = j + 1
+        else:
+            _, m, s = w.split(":")
+            out.append(AMTSingle(word_str(s), int(m)))
+            i += 1
+    return out, i
+
+
+def pat_of(w):
+    from metasequoia_sql.lexical.amt_node import AMTMark
+    k, v = w.split(":")
+    return word_str(v) if k == "s" else AMTMark(int(v))
+
+
+def show_val(v):
+    from metasequoia_sql.common import TokenScanner
+    if v is None:
+        return "U"
+    if v is True:
+        return "T"
+    if v is False:
+        return "F"
+    if isinstance(v, int):          # has_mark / equals return the masked int
+        return "T" if v else "F"
+    return "?" + type(v).__name__
+
+
+def run_cursor(words):
+    from metasequoia_sql.common import TokenScanner
+    from metasequoia_sql.lexical.amt_node import AMTMark
+    toks, i = build_toks(words, 0)
+    if words[i] != "|":
+        raise ValueError("no ops")
+    ops = []
+    cur = []
+    for w in words[i + 1:]:
+        if w == ";":
+            if cur:
+                ops.append(cur)
+            cur = []
+        else:
+            cur.append(w)
+    if cur:
+        ops.append(cur)
+    sc = TokenScanner(toks)
+    out = []
+    for op in ops:
+        k = op[0]
+        try:
+            if k == "go":
+                r = "tok[" + show_tokens([sc.get_offset(int(op[1]))]) + "]"
+            elif k == "gn":
+                t = sc.get_offset_or_null(int(op[1]))
+                r = "tok[none]" if t is None else "tok[" + show_tokens([t]) + "]"
+            elif k == "g":
+                t = sc.get_or_null()
+                r = "tok[none]" if t is None else "tok[" + show_tokens([t]) + "]"
+            elif k == "pop":
+                r = "tok[" + show_tokens([sc.pop()]) + "]"
+            elif k == "mv":
+                r = show_val(sc.move(int(op[1])))
+            elif k == "close":
+                r = show_val(sc.close())
+            elif k == "fin":
+                r = show_val(sc.is_finish)
+            elif k == "src":
+                t = sc.get_as_source_or_null()
+                r = "str[none]" if t is None else "str[" + cps(t) + "]"
+            elif k == "psrc":
+                r = "str[" + cps(sc.pop_as_source()) + "]"
+            elif k == "ch":
+                r = "sc[" + show_tokens(sc.get_as_children_scanner().elements) + "]"
+            elif k == "pch":
+                r = "sc[" + show_tokens(sc.pop_as_children_scanner().elements) + "]"
+            elif k == "s":
+                r = show_val(sc.search(*[pat_of(w) for w in op[1:]]))
+            elif k == "S":
+                r = show_val(sc.search_and_move(*[pat_of(w) for w in op[1:]]))
+            elif k == "m":
+                r = show_val(sc.match(*[pat_of(w) for w in op[1:]]))
+            elif k == "sm":
+                r = show_val(sc.search_one_type_mark(AMTMark(int(op[1]))))
+            elif k == "ss":
+                r = show_val(sc.search_one_type_str(word_str(op[1])))
+            elif k == "su":
+                r = show_val(sc.search_one_type_str_use_upper(word_str(op[1])))
+            elif k == "su2":
+                r = show_val(sc.search_two_type_str_use_upper(word_str(op[1]), word_str(op[2])))
+            elif k == "su3":
+                r = show_val(sc.search_three_type_str_use_upper(word_str(op[1]), word_str(op[2]), word_str(op[3])))
+            elif k == "sset":
+                r = show_val(sc.search_one_type_set({word_str(w) for w in op[1:]}))
+            elif k == "ssetu":
+                r = show_val(sc.search_one_type_set_use_upper({word_str(w) for w in op[1:]}))
+            elif k == "Ss":
+                r = show_val(sc.search_and_move_one_type_str(word_str(op[1])))
+            elif k == "Su":
+                r = show_val(sc.search_and_move_one_type_str_use_upper(word_str(op[1])))
+            elif k == "Su2":
+                r = show_val(sc.search_and_move_two_type_str_use_upper(word_str(op[1]), word_str(op[2])))
+            elif k == "Su3":
+                r = show_val(sc.search_and_move_three_type_str_use_upper(word_str(op[1]), word_str(op[2]), word_str(op[3])))
+            elif k == "Sset":
+                r = show_val(sc.search_and_move_one_type_set({word_str(w) for w in op[1:]}))
+            elif k == "Ssetu":
+                r = show_val(sc.search_and_move_one_type_set_use_upper({word_str(w) for w in op[1:]}))
+            elif k == "split":
+                r = "scs[" + "|".join(show_tokens(x.elements) for x in sc.pop_as_children_scanner_list_split_by(word_str(op[1]))) + "]"
+            else:
+                r = "BAD-OP"
+        except Exception as e:  # noqa
+            r = "E:" + err_name(e)
+        out.append("%d=%s" % (sc.pos, r))
+    return " ; ".join(out)
+
+
 def handle(line: str) -> str:
     words = line.split()
     if not words:
@@ -108,6 +244,11 @@ def handle(line: str) -> str:
         except Exception as e:  # noqa
             return "ERR " + err_name(e)
         return ("OK " + show_tokens(ts)).strip()
+    if cmd == "CURSOR":
+        try:
+            return run_cursor(words[1:])
+        except Exception as e:  # noqa
+            return "BAD-REQUEST " + str(e)
     return "BAD-REQUEST"
 
 
